@@ -201,25 +201,30 @@ BtcpFinish(ep) == LET f == L1Finish(ep) IN [ep |-> ep, ret |-> f.rc, err |-> f.e
 
 (***************************************************************************)
 (* ux / uxf: one SOCK_SEQPACKET datagram per message; credits in messages. *)
+(* A failure of the connection (ECONNRESET) is remembered: l1 = "bad".      *)
 (* tr = "min": a truncating receive counts the bytes really delivered      *)
 (* (property C17); "full": it counts the whole message.                    *)
 (***************************************************************************)
 UxSend(ep, len, wc, werr) ==
   IF len > MaxMsg THEN [ep |-> ep, ret |-> -1, err |-> EMSGSIZE, used |-> 0]
   ELSE IF len = 0 THEN [ep |-> ep, ret |-> -1, err |-> EINVAL, used |-> 0]
+  ELSE IF ep.l1 = "bad" THEN [ep |-> ep, ret |-> -1, err |-> ep.l1why, used |-> 0]
   ELSE IF wc >= 1
   THEN [ep |-> [ep EXCEPT !.cnt = CntMsg(CntMsg(@, FROM_APP, len), TO_LOWER, len)],
         ret |-> 0, err |-> 0, used |-> 1]
-  ELSE [ep |-> ep, ret |-> -1, err |-> werr, used |-> 0]
+  ELSE [ep |-> IF werr = ECONNRESET THEN [ep EXCEPT !.l1 = "bad", !.l1why = werr] ELSE ep,
+        ret |-> -1, err |-> werr, used |-> 0]
 
 \* L: length of the datagram at the head of the queue
 UxReceive(ep, cap, rc, rterm, L, tr) ==
-  IF rc >= 1
+  IF ep.l1 = "bad" THEN [ep |-> ep, ret |-> -1, err |-> ep.l1why, used |-> 0]
+  ELSE IF rc >= 1
   THEN LET u == Min(L, cap) IN
        [ep |-> [ep EXCEPT !.cnt = CntMsg(CntMsg(@, FROM_LOWER, L), TO_APP, IF tr = "min" THEN u ELSE L)],
         ret |-> u, err |-> 0, used |-> 1]
   ELSE IF rterm = EOFMARK THEN [ep |-> ep, ret |-> 0, err |-> 0, used |-> 0]
-  ELSE [ep |-> ep, ret |-> -1, err |-> rterm, used |-> 0]
+  ELSE [ep |-> IF rterm = EAGAIN THEN ep ELSE [ep EXCEPT !.l1 = "bad", !.l1why = rterm],
+        ret |-> -1, err |-> rterm, used |-> 0]
 
 UxFinish(ep) == [ep |-> ep, ret |-> 0, err |-> 0, used |-> 0]
 
